@@ -230,7 +230,7 @@ def shown_name(n):
 # what a thread's program makes reach the layer (independent bookkeeping of spans and scopes)
 
 class Em:
-    __slots__ = ("meta", "cs", "scope", "fields", "marker", "kind", "status", "nested", "top", "thread", "op", "uid", "abn_text", "jfields", "explicit", "ctx_scope")
+    __slots__ = ("meta", "cs", "scope", "fields", "marker", "kind", "status", "nested", "top", "thread", "op", "uid", "abn_text", "jfields", "explicit", "ctx_scope", "poisoned")
 
     def __init__(self):
         self.nested = []
@@ -239,6 +239,7 @@ class Em:
         self.abn_text = None
         self.explicit = False
         self.ctx_scope = []
+        self.poisoned = False
 
 
 def cs_meta(cs):
@@ -253,6 +254,7 @@ def build_event(case, t, opi, cs_idx, vals, scope, top, counter, explicit, ctx_s
     e.cs = cs_idx
     e.scope = scope
     e.ctx_scope = ctx_scope
+    e.poisoned = poisons(case) and any(sp.get("poisoned") for sp in scope)
     e.kind = "event"
     e.top = top
     e.thread = t
@@ -281,6 +283,8 @@ def build_event(case, t, opi, cs_idx, vals, scope, top, counter, explicit, ctx_s
             e.marker = r
         e.fields.append((name, r))
         e.jfields.append((name, json_value(v)))
+    if e.poisoned:
+        e.status = "poisoned"       # format_event unwinds on the first extensions() of the poisoned span: nothing is written
     return e
 
 
@@ -305,11 +309,40 @@ def lifecycle(case, t, opi, kind, sp, counter):
 
 
 def snap(sp):
-    return {"name": sp["name"], "target": sp["target"], "groups": [list(g) for g in sp["groups"]]}
+    return {"name": sp["name"], "target": sp["target"], "groups": [list(g) for g in sp["groups"]], "poisoned": bool(sp.get("poisoned"))}
 
 
-def thread_emissions(case, t, counter):
+def poisons(case):
+    """do the span-extension locks of the build this case runs on poison? (std locks; not with the parking_lot feature)"""
+    return not case.get("pl")
+
+
+def record_op(case, sp, op, side, t, opi):
+    """bookkeeping of {"op":"record"} on the innermost open span sp: a value whose Debug impl panics unwinds out of
+    on_record (under the extensions write guard: the std lock is poisoned, finding F132); on a poisoned span every record
+    unwinds.  side collects the (thread, op, "record") entries the harness's catch_unwind must report."""
+    cs = case["callsites"][sp["cs"]]
+    v = op["v"]
+    if op["f"] not in cs["fields"] or "none" in v:
+        return
+    if sp.get("poisoned") and poisons(case):
+        side.append([t, opi, "record"])
+        return
+    if "panic" in v:
+        side.append([t, opi, "record"])
+        if poisons(case):
+            sp["poisoned"] = True
+        elif case["format"] != "json":      # the text formatters append in place: what the impl wrote before panicking stays
+            sp["groups"].append([(op["f"], v["panic"])])
+        return
+    r = render_value(op["f"], v)
+    if r is not None:
+        sp["groups"].append([(op["f"], r)])
+
+
+def thread_emissions(case, t, counter, side=None):
     """top-level things reaching on_event on thread t, in program order: Em objects and ('direct', text)"""
+    side = side if side is not None else []
     se = set(case["opts"].get("span_events", []))
     out = []
     stack = []
@@ -350,11 +383,7 @@ def thread_emissions(case, t, counter):
                 close_top(opi)
         elif o == "record":
             if stack:
-                sp = stack[-1]
-                cs = case["callsites"][sp["cs"]]
-                r = render_value(op["f"], op["v"])
-                if op["f"] in cs["fields"] and r is not None:
-                    sp["groups"].append([(op["f"], r)])
+                record_op(case, stack[-1], op, side, t, opi)
         elif o == "race":
             # two threads record one field each on the innermost open span at the same time: BOTH are there afterwards
             if stack:
@@ -778,7 +807,7 @@ def routed(case, e):
     """sinks (documented routing) of the write the emission / direct op e performs; None: it performs none"""
     if isinstance(e, tuple):
         return denote(case["writer"], None)
-    if e.status == "panic" or (e.status == "err" and not case["opts"].get("lie")):
+    if e.status in ("panic", "poisoned") or (e.status == "err" and not case["opts"].get("lie")):
         return None
     return denote(case["writer"], e.meta)
 
@@ -787,9 +816,11 @@ def case_items(case):
     """per thread: what reaches the layer (Em objects) and the direct ops, in program order; direct tuples get the thread appended"""
     counter = [0]
     res = []
+    side = []
     for t in range(len(case["threads"])):
-        items = thread_emissions(case, t, counter)
+        items = thread_emissions(case, t, counter, side)
         res.append([it + (t,) if isinstance(it, tuple) else it for it in items])
+    case["_record_unwinds"] = side
     return res
 
 
@@ -977,6 +1008,49 @@ def gen_race_cases(rng, n):
     return cases
 
 
+def gen_poison_cases(rng, n):
+    """F132's history: a span, a record on it whose value's Debug impl panics (caught), then events inside the span (contextual,
+    explicit child, in a child span), outside it (explicit root), a later healthy record on it, exit, an event afterwards.
+    No span events (a lifecycle record of the poisoned span would unwind out of exit/close)."""
+    cases = []
+    for i in range(n):
+        fmt = ["full", "compact", "pretty", "json"][(i + rng.randrange(4)) % 4]
+        cb = CaseBuilder(rng)
+        names = rng.sample(FIELD_NAMES, 3)
+        sc = cb.cs("span", rng.choice(SPAN_NAMES), rng.choice(TARGETS), rng.randint(1, 5), names)
+        ch = cb.span_cs()
+        o = gen_opts(rng, "content")
+        o["span_events"] = []
+        o["ansi"] = False
+        seq = [0]
+
+        def ev(parent=None):
+            c_ = cb.event_cs()
+            vals = []
+            for n_ in cb.callsites[c_]["fields"]:
+                if n_ == "seq":
+                    seq[0] += 1
+                    vals.append({"i": 100000 + seq[0]})
+                else:
+                    vals.append(gen_value(rng, n_))
+            return {"op": "event", "cs": c_, "vals": vals, "parent": parent}
+        prog = [ev()]
+        if rng.random() < 0.5:
+            prog.append({"op": "enter", "cs": cb.span_cs(), "vals": [], "parent": None})
+            cb.callsites[prog[-1]["cs"]]  # (an outer span that stays healthy)
+            prog[-1]["vals"] = [gen_value(rng, n_) for n_ in cb.callsites[prog[-1]["cs"]]["fields"]]
+        depth0 = len([p for p in prog if p["op"] == "enter"])
+        prog += [{"op": "enter", "cs": sc, "vals": [gen_value(rng, names[0]), {"none": 1}, {"none": 1}], "parent": None}, ev(),
+                 {"op": "record", "f": names[1], "v": {"panic": rng.choice(["", "par", "Partial { x: "])}}, ev(), ev(-1), ev(depth0),
+                 {"op": "enter", "cs": ch, "vals": [gen_value(rng, n_) for n_ in cb.callsites[ch]["fields"]], "parent": None}, ev(), {"op": "exit"},
+                 {"op": "record", "f": names[2], "v": {"i": 5}}, ev(), {"op": "exit"}, ev()]
+        prog += [{"op": "exit"}] * depth0 + [ev()]
+        w = gen_wexp(rng, rng.choice([0, 1, 2]), 2)
+        cases.append({"id": 0, "kind": "poison", "format": fmt, "opts": o, "nsinks": 2, "sink_kinds": ["rec", "rec"], "writer": w,
+                      "callsites": cb.callsites, "threads": [prog], "global": False})
+    return cases
+
+
 def add_sink_kinds(rng, c):
     """closure-backed and Mutex-backed leaves.  A Mutex leaf: at most once in the expression (a second lock of the same
     Mutex inside one Tee would deadlock -- user error), no direct ops (they use a second copy of the writer)."""
@@ -1075,7 +1149,7 @@ def coq_meta(m):
 
 
 def coq_scope(scope):
-    return "[" + "; ".join("Span %s [%s] %s" % (B(sp["name"]), "; ".join("[" + "; ".join("(%s, %s)" % (B(n), B(v)) for n, v in g) + "]" for g in sp["groups"]), B(sp["target"]))
+    return "[" + "; ".join("Span %s [%s] %s" % (B(sp["name"]), "; ".join("[" + "; ".join("(%s, %s)" % (B(n), B(v)) for n, v in g) + "]" for g in sp["groups"]), B(sp["target"]) + " " + cb_(sp.get("poisoned")))
                            for sp in scope) + "]"
 
 
@@ -1190,10 +1264,7 @@ def model_ops(case, t):
                 span_op("close", sp)
         elif o == "record":
             if stack:
-                sp = stack[-1]
-                r = render_value(op["f"], op["v"])
-                if op["f"] in case["callsites"][sp["cs"]]["fields"] and r is not None:
-                    sp["groups"].append([(op["f"], r)])
+                record_op(case, stack[-1], op, [], t, 0)
         elif o == "race":
             if stack:
                 sp = stack[-1]
@@ -1219,7 +1290,7 @@ def opaque_event(e):
     nested = "[" + "; ".join(opaque_event(n) for n in e.nested) + "]"
     if e.status == "ok":
         out = "(OOk [%d])" % (2 * e.uid + 1)
-    elif e.status == "panic":
+    elif e.status in ("panic", "poisoned"):
         out = "(OPanic [%d])" % (2 * e.uid)
     else:
         out = "(OErr [%d] [%d])" % (2 * e.uid, 2 * e.uid + 1)
@@ -1278,14 +1349,14 @@ def run_harness(ctx, rep, path, cases):
         fn = os.path.join(ctx.work, "cases.jsonl")
         with open(fn, "w") as f:
             for c in batch:
-                f.write(json.dumps({k: v for k, v in c.items() if k != "plans"}) + "\n")
+                f.write(json.dumps({k: v for k, v in c.items() if k != "plans" and not k.startswith("_")}) + "\n")
         rc, out = run_bin(path, [fn], timeout=1200)
         if rc != 0:
             rep.tie("run:h_fmt", False, "rc=%d %s" % (rc, vlib.last_error(out)))
         parse_harness_output(out, obs)
     for c in cases:
         if c.get("global"):     # the global default can be set once per process
-            rc, out = run_bin(path, [], input=json.dumps({k: v for k, v in c.items() if k != "plans"}) + "\n", timeout=120)
+            rc, out = run_bin(path, [], input=json.dumps({k: v for k, v in c.items() if k != "plans" and not k.startswith("_")}) + "\n", timeout=120)
             parse_harness_output(out, obs)
     return obs
 
@@ -1350,12 +1421,13 @@ def encode_observed(case, calls):
 # ------------------------------------------------------------------------------------------------
 # oracle on one thread's call log
 
-def check_thread(rep, c, case_min, t, items, calls, f9_counter):
+def check_thread(rep, c, case_min, t, items, calls, f9_counter, observed_caught=(), f132=None):
     """The implementation's calls on the recording sinks, thread t, against the property.  Returns the (thread, op)
     pairs whose processing must have unwound into the harness's catch_unwind."""
     pos = 0
     aborts = []
     unwinds = []
+    f132 = f132 if f132 is not None else [False]
     lie = c["opts"].get("lie")
 
     def viol(what, e, **extra):
@@ -1377,6 +1449,18 @@ def check_thread(rep, c, case_min, t, items, calls, f9_counter):
                 if e.top:
                     aborts.append(e)
                     unwinds.append([t, e.op])
+            elif e.status == "poisoned":
+                # an innocent event inside a span on which a record call unwound: it reaches the layer and (std locks) its
+                # format_event unwinds on the first extensions() of the poisoned span: nothing is written, the emitting call panics
+                if [t, e.op] in observed_caught:
+                    unwinds.append([t, e.op])
+                    if not f132[0]:
+                        f132[0] = True
+                        rep.violation("an event that reaches the layer inside span(s) %s, on which an earlier `record` call unwound (its value's Debug impl panicked, the caller "
+                                      "caught it), is not written: the emitting call panics (poisoned extensions lock)" % [sp["name"] for sp in e.scope if sp.get("poisoned")],
+                                      {"case": case_min, "thread": t, "op": e.op, "marker": e.marker}, finding="F132")
+                # (when the emitting call did NOT panic the record must be there: the calls that follow are then checked against
+                #  the next emission and the mismatch is reported there / by the correspondence; the source says the locks poison)
             elif e.top:
                 aborts = []               # the non-unwinding path clears
             continue
@@ -1602,6 +1686,13 @@ def run(ctx):
             cases += gen_teefault_cases(rng)
         cases += gen_lifecycle_cases(rng)
         cases += gen_race_cases(rng, 6 * scale)
+        poison = gen_poison_cases(rng, 8 * scale)
+        cases += poison
+        for pc in poison[:4 * scale]:          # the same histories on the build whose locks do not poison (parking_lot feature)
+            tw = copy.deepcopy(pc)
+            tw["kind"] = "poison-pl"
+            tw["pl"] = True
+            cases.append(tw)
         for _ in range(6 * scale):
             a, b = gen_testwriter_twins(rng)
             cases += [a, b]
@@ -1611,13 +1702,20 @@ def run(ctx):
     for i, c in enumerate(cases):
         c["id"] = i + 1
         c.setdefault("global", False)
-    obs = run_harness(ctx, rep, paths["h_fmt"], cases)
-    ctx.log("harness ran %d cases" % len(cases))
+    obs = run_harness(ctx, rep, paths["h_fmt"], [c for c in cases if not c.get("pl")])
+    pl_cases = [c for c in cases if c.get("pl")]
+    if pl_cases:        # the build with tracing-subscriber's parking_lot feature: its span-extension locks do not poison
+        ok2, paths2, log2 = cargo_build(ctx, "fmt", ["h_fmt_pl"], release=ctx.thorough(), features=["pl"])
+        if not ok2:
+            rep.tie("build:h_fmt_pl", False, vlib.last_error(log2))
+        else:
+            obs.update(run_harness(ctx, rep, paths2["h_fmt_pl"], pl_cases))
+    ctx.log("harness ran %d cases (%d on the parking_lot build)" % (len(cases), len(pl_cases)))
 
     # ---- expectations (python bookkeeping), oracle
     per_case = {}
     f9_counter = [0]
-    CASE_KEYS = ("format", "opts", "nsinks", "sink_kinds", "writer", "callsites", "threads", "faults", "plans", "global")
+    CASE_KEYS = ("format", "opts", "nsinks", "sink_kinds", "writer", "callsites", "threads", "faults", "plans", "global", "pl")
     for c in cases:
         cid = c["id"]
         o = obs.get(cid)
@@ -1653,13 +1751,14 @@ def run(ctx):
         by_thread = {}
         for call in o["log"]:
             by_thread.setdefault(call["t"], []).append(call)
-        want_caught = []
+        want_caught = [list(x) for x in c.get("_record_unwinds", [])]
+        f132 = [False]
         for t, items in enumerate(exp_threads):
-            want_caught += check_thread(rep, c, case_min, t, items, by_thread.get(t, []), f9_counter)
+            want_caught += check_thread(rep, c, case_min, t, items, by_thread.get(t, []), f9_counter, o.get("caught", []), f132)
         check_mutex_exclusion(rep, c, case_min, o["log"])
         for ov, to in o.get("races", []):
             rep.count("record-race:" + ("overlapped" if ov else "second-call-blocked" if to else "no-gate"))
-        if sorted(o.get("caught", [])) != sorted(want_caught):
+        if sorted(map(str, o.get("caught", []))) != sorted(map(str, want_caught)):
             rep.tie("harness:caught-panics", False, "case %d: caught %s, expected %s" % (cid, sorted(o.get("caught", [])), sorted(want_caught)), {"case": case_min})
         aborted_any = any((not isinstance(e, tuple)) and e.top and e.status == "panic" for items in exp_threads for e in items)
         nontriv = (st.get("tee", 0) >= 1 and st.get("orelse", 0) >= 1) or len(c["threads"]) >= 2 or aborted_any or bool(c.get("plans"))
@@ -1713,7 +1812,12 @@ def run(ctx):
                 for (kind, payload), (_, sp) in zip(mops, segs):
                     if kind == "ops":
                         if payload:
-                            if c["format"] == "pretty":
+                            if c.get("pl"):
+                                if c["format"] == "pretty":
+                                    parts.append("eval_pretty_pl %s %s %s %s %s [%s]" % (lie, O, SC, W, th, "; ".join(payload)))
+                                else:
+                                    parts.append("eval_thread_pl %s %s %s %s %s %s [%s]" % (lie, "Full" if c["format"] == "full" else "Compact", O, SC, W, th, "; ".join(payload)))
+                            elif c["format"] == "pretty":
                                 parts.append("eval_pretty_f %s %s %s %s %s [%s] %s" % (lie, O, SC, W, th, "; ".join(payload), coq_plans(c, completion_order(sp))))
                             else:
                                 parts.append("eval_thread_f %s %s %s %s %s %s [%s] %s" % (lie, "Full" if c["format"] == "full" else "Compact", O, SC, W, th, "; ".join(payload),
